@@ -6,7 +6,7 @@ import GocoinV.Proofs.C04Sim2
 import GocoinV.Proofs.C04Checks
 namespace GocoinV.Proofs.C04
 open GocoinV GocoinV.Connect
-open GocoinV.Spec.Connect (Coin Utxo absGet absList Acc connectTxs connectBlock addOuts outSum subsidy)
+open GocoinV.Spec.Connect (Coin Utxo absGet absList Acc connectTxs connectBlock addOuts outSum subsidy seqLockOk)
 
 /-! ### script verdicts: commitTxs succeeds only if every input script verified -/
 
@@ -341,8 +341,9 @@ theorem connect_sound_core (mtpOf : Nat → Nat) (db : DB) (b : Block) (db' : DB
     (hwf : WF db)
     (hinj : ((b.txs.map (·.txid)).map key8).Nodup)
     (hbip30 : ∀ tx ∈ b.txs, aGet db (key8 tx.txid) = none)
-    (hseq : b.csv = true → ∀ tx ∈ b.txs, 2 ≤ tx.version → ∀ i ∈ tx.ins, i.sequence / 2 ^ 31 % 2 = 1)
-    (hret : ∀ tx ∈ b.txs, txRetFree tx = true)
+    (hseq : b.csv = true → ∀ tx ∈ b.txs, 2 ≤ tx.version → ∀ i ∈ tx.ins, ∀ c : Coin,
+        (absGet mtpOf db i.prev = some c ∨ (absGet mtpOf db i.prev = none ∧ c.height = b.height ∧ c.mtpPrev = b.mtp)) → seqLockOk b.height b.mtp i c = true)
+    (hret : ∀ tx ∈ b.txs, txCountsAgree tx = true)
     (hheights : ∀ k r, aGet db k = some r → r.height ≤ b.height) (hb : b.height < 2 ^ 32)
     (hmtp : mtpOf b.height = b.mtp)
     (hsize : ∀ tx ∈ b.txs, tx.noWitSize * 4 < 2 ^ 32)
@@ -388,14 +389,14 @@ theorem connect_sound_core (mtpOf : Nat → Nat) (db : DB) (b : Block) (db' : DB
           have hmem : ∀ tx ∈ rest, tx ∈ b.txs := fun tx htx => by rw [ht]; exact List.mem_cons_of_mem _ htx
           have hcbmem : cb ∈ b.txs := by rw [ht]; simp
           -- per-transaction hypotheses
-          have htxok : ∀ tx ∈ rest, TxOk db b tx := by
+          have htxok : ∀ tx ∈ rest, TxOk mtpOf db b tx := by
             intro tx htx
             have hr := hret tx (hmem tx htx)
             refine ⟨?_, hr, (checkTransaction_ok tx (hall tx (hmem tx htx)).1).2.2.2.1, hbip30 tx (hmem tx htx)⟩
             intro i hi
-            unfold txRetFree at hr
+            unfold txCountsAgree at hr
             simp only [Bool.and_eq_true, List.all_eq_true] at hr
-            exact ⟨hscr tx htx i hi, fun q1 q2 => hseq q1 tx (hmem tx htx) q2 i hi, (hr.1 i hi).1.2, (hr.1 i hi).2⟩
+            exact ⟨hscr tx htx i hi, fun c hc q1 q2 => hseq q1 tx (hmem tx htx) q2 i hi c hc, (hr.1 i hi).1.2, (hr.1 i hi).2⟩
           -- the state after the coinbase denotes the map with the coinbase outputs added
           have hrel0 : ∀ op, aGet (absList mtpOf db) op = view mtpOf db b (St.init b) op := by
             intro op
